@@ -159,6 +159,12 @@ func disjointMergeOrder(strat, msg string) bool {
 		if regexp.MustCompile(`\b` + regexp.QuoteMeta(m[1]) + `\b`).MatchString(first) {
 			return true
 		}
+		// the disjoint column may have been renamed above the union
+		for _, r := range regexp.MustCompile(`\b`+regexp.QuoteMeta(m[1])+` to ([a-z0-9_]+)`).FindAllStringSubmatch(strat, -1) {
+			if regexp.MustCompile(`\b` + regexp.QuoteMeta(r[1]) + `\b`).MatchString(first) {
+				return true
+			}
+		}
 	}
 	return false
 }
